@@ -244,6 +244,15 @@ func TestVerifC09(t *testing.T) {
 		}
 		prog := []string{begin}
 		ts := int64(1000)
+		var stamps []int64 // the timestamp of every message appended so far
+		// the clock of a clean: anywhere, or exactly at / just after the timestamp of some message, so
+		// that the age cutoff also falls BETWEEN two messages of one segment
+		pickTTL := func() int64 {
+			if len(stamps) > 0 && rnd.Bool() {
+				return stamps[rnd.Intn(len(stamps))] + int64(rnd.Intn(2))
+			}
+			return 1000 + int64(rnd.Intn(int(ts-1000)+60))
+		}
 		addAppends := func(k int) {
 			for i := 0; i < k; i++ {
 				ts += int64(1 + rnd.Intn(50))
@@ -251,6 +260,7 @@ func TestVerifC09(t *testing.T) {
 				toks := make([]string, b)
 				for j := range toks {
 					toks[j] = fmt.Sprintf("61/*%d.5/_/-1", rnd.Intn(4)*100)
+					stamps = append(stamps, ts+int64(j))
 				}
 				prog = append(prog, fmt.Sprintf("append 1 %d %s", ts, strings.Join(toks, " ")))
 				ts += int64(b)
@@ -283,16 +293,16 @@ func TestVerifC09(t *testing.T) {
 			res.Dist("reopen-before-clean")
 			prog = append(prog, "reopen")
 		}
-		prog = append(prog, fmt.Sprintf("clean %d", 1000+rnd.Intn(int(ts-1000)+60)))
+		prog = append(prog, fmt.Sprintf("clean %d", pickTTL()))
 		if rnd.Intn(3) == 0 {
-			prog = append(prog, fmt.Sprintf("clean %d", 1000+rnd.Intn(int(ts-1000)+60)))
+			prog = append(prog, fmt.Sprintf("clean %d", pickTTL()))
 		}
 		if rnd.Bool() {
 			addAppends(1 + rnd.Intn(3))
 			if rnd.Intn(3) == 0 {
 				prog = append(prog, "reopen")
 			}
-			prog = append(prog, fmt.Sprintf("clean %d", 1000+rnd.Intn(int(ts-1000)+60)))
+			prog = append(prog, fmt.Sprintf("clean %d", pickTTL()))
 		}
 		prog = append(prog, "read 0 u", "reopen", "lastoff 1")
 		check(prog, lim)
